@@ -8,28 +8,28 @@ check(
 )
 check(
     "C12", "exploration",
-    "Model-based generated search: a Hypothesis RuleBasedStateMachine drives histories of ResultSet operations (add_result, a|b, a|=b) against one Counter per set, invariant after every step; generated Sonar/SARIF/DefectDojo document families go through the loader functions the detectors use and are compared as multisets with an independent reference extractor; the same families go through the CLI, where the ResultSet handed to each SAST codemod is captured in the forked child. Exploration fits: histories and documents are unbounded, the oracle (multiset union / 40-line extractor) is simple and independent.",
+    "Model-based generated search: a Hypothesis RuleBasedStateMachine drives histories of ResultSet operations (add_result, a|b, a|=b) against one Counter per set, invariant after every step; generated Sonar/SARIF/DefectDojo document families go through the loader functions the detectors use and are compared as multisets with an independent reference extractor; the same families (incl. SARIF files holding runs of several tools in either order) go through the CLI, where the ResultSet handed to each SAST codemod is captured in the forked child. Exploration fits: histories and documents are unbounded, the oracle (multiset union / 40-line extractor) is simple and independent.",
     "Trusted: my reference extractors (what counts as open, which run belongs to which tool, component->path); statuses restricted to unambiguous ones; every Sonar entry has a status; identity only where the format has one (Sonar key, DefectDojo id); CodeQL has no registered codemod so it is checked at loader level only.",
     "Hypothesis stateful model-based testing + generated documents vs. reference extraction (loader level and CLI); coverage-guided atheris/libFuzzer stage on the document loaders",
     "DESIGN.md §3 C12",
 )
 check(
     "C20", "exploration",
-    "Generated-input search over argv vectors and the world they refer to (directory, result files per tool option, AI-client environment, output path kind), each executed as a real CLI run in a forked child whose exit status is compared with a reference decision list written from the statement; plus the clause 'non-zero => report not written'. Exploration fits: the option grammar is unbounded, the oracle is a ten-line decision list.",
+    "Generated-input search over argv vectors and the world they refer to (directory, result files per tool option, AI-client environment, output path kind, a changed source file whose name is not valid UTF-8), each executed as a real CLI run in a forked child whose exit status is compared with a reference decision list written from the statement; plus the clause 'non-zero => report not written'. Exploration fits: the option grammar is unbounded, the oracle is a ten-line decision list.",
     "Trusted: the reference decision list; weaker readings where the statement gives no order (info action + argument error: 0 or 3; status-1 condition + inconsistent AI configuration: 1 or 3); malformed documents unspecified. Root sandbox: EACCES unreachable, substitutes are directory / missing parent / path through a file / /dev/full. OpenAI clients cannot be constructed in this environment, so only inconsistent OpenAI settings and (in)consistent Azure Llama settings are generated. Thorough tier repeats a sample through /venv/bin/codemodder as a subprocess.",
     "Hypothesis property-based testing of the CLI vs. reference decision list (fork-isolated real runs)",
     "DESIGN.md §3 C20",
 )
 check(
     "C05", "exploration",
-    "Generated-input search at two levels: match_files on generated path and glob lists against an independently written glob/selection reference; and end-to-end runs on generated trees (test/build/venv/VCS dirs, non-Python files, symlinked files and directories inside and outside the target) with generated include/exclude lists in find-and-fix and SAST mode, where the set of files whose bytes changed is read from before/after snapshots of the whole sandbox and must equal trigger files ∩ reference selection, with nothing created, deleted or modified elsewhere. A calibration run that selects everything confirms the trigger files of every tree.",
+    "Generated-input search at two levels: match_files on generated path and glob lists against an independently written glob/selection reference; and end-to-end runs on generated trees (test/build/venv/VCS dirs, non-Python files, symlinked files and directories inside and outside the target) with generated include/exclude lists in four modes (detector-less find-and-fix, semgrep-rule-detected find-and-fix through real semgrep on trees mixing trigger and plain files, Sonar-driven, and a dependency-adding codemod whose requirements.txt is a regular file or a symlink to a file outside the target), where the set of files whose bytes changed is read from before/after snapshots of the whole sandbox and must equal trigger files ∩ reference selection, with nothing created, deleted or modified elsewhere. A calibration run that selects everything confirms the trigger files of every tree.",
     "Trusted: my glob translation (fnmatch semantics: '*' crosses '/', whole relative path), the frozen default-exclude list, the single cheap trigger per mode (use-set-literal; sonar fix-assert-tuple). ':N' patterns are chosen so C13's line semantics do not interfere. Symlink loops / permission errors not generated.",
     "Hypothesis property-based testing vs. reference glob model; snapshot differencing of real CLI runs; coverage-guided atheris/libFuzzer stage on match_files",
     "DESIGN.md §3 C05",
 )
 check(
     "C19", "exploration",
-    "Generated-input search on the public pipeline API with a real execution context: text files x safe regex family x finding sets through RegexTransformerPipeline / SastRegexTransformerPipeline against a reference model (re.sub on targeted lines, identity elsewhere, one change per edited line with the findings covering it, dry-run untouched, strict diff round-trip); recursive XML documents written by an own serialiser x attribute maps / new elements x finding modes through XMLTransformerPipeline, before/after compared as canonical trees built by lxml/libxml2 (independent of the expat/SAX stack), expected tree = original with exactly the targeted edits. Exploration fits: documents and edits are unbounded; oracles are a reference model and an independent parser.",
+    "Generated-input search on the public pipeline API with a real execution context: text files (LF/CRLF/mixed, exotic separators, no final newline, byte order mark) x safe regex family x finding sets through RegexTransformerPipeline / SastRegexTransformerPipeline against a reference model (re.sub on targeted lines, identity elsewhere, one change per edited line with the findings covering it, dry-run untouched, strict diff round-trip); recursive XML documents written by an own serialiser x attribute maps / new elements x finding modes through XMLTransformerPipeline, before/after compared as canonical trees built by lxml/libxml2 (independent of the expat/SAX stack), expected tree = original with exactly the targeted edits. Exploration fits: documents and edits are unbounded; oracles are a reference model and an independent parser.",
     "Trusted: lxml/libxml2 as the judge of XML content; weak reading of 'insignificant whitespace' (whitespace-only text dropped, text chunks stripped at markup boundaries); XML declaration and empty-element spelling not compared; regex patterns never match line terminators and both readings of 'line' (with/without terminator) are accepted; findings with columns only on elements preceded by ASCII text.",
     "Hypothesis property-based testing vs. reference edit model; differential XML parsing (libxml2 vs expat); strict unified-diff applier; coverage-guided atheris/libFuzzer stage on both pipelines",
     "DESIGN.md §3 C19",
@@ -57,14 +57,14 @@ check(
 )
 check(
     "C03", "exploration",
-    "Round-trip oracle over generated runs: (a) every registered codemod on generated programs (contexts, CRLF/mixed EOL, BOM, tabs, form feed, no final newline); (b) generated projects with multi-trigger files and a dependency manifest (four formats x LF/CRLF/no-final-newline) under sequences of 2-4 codemods in one run. An own strict unified-diff applier (lines split on \\n only, exact hunk positions/context) folds the report's diffs in report order over the pre-run bytes and must reproduce the bytes on disk up to the final newline; every changeset must move its file; every path without a changeset is byte-identical; nothing is created or deleted.",
+    "Round-trip oracle over generated runs: (a) every registered codemod on generated programs (contexts, CRLF/mixed EOL, BOM, tabs, form feed, no final newline); (b) generated projects with multi-trigger files and a dependency manifest (four formats x LF/CRLF/no-final-newline/trailing blanks; setup.py that itself carries a site of a later codemod) under sequences of 2-4 codemods in one run, one project in four with a rule-detected codemod and use-set-literal rewriting the same line in either order. An own strict unified-diff applier (lines split on \\n only, exact hunk positions/context) folds the report's diffs in report order over the pre-run bytes and must reproduce the bytes on disk up to the final newline; every changeset must move its file; every path without a changeset is byte-identical; nothing is created or deleted.",
     "Trusted: my diff applier (cross-checked against difflib output on the unchanged tree by the fact that the check is quiet, and by seeded mutants); report order = execution order; final newline not compared (statement's tolerance).",
     "Hypothesis property-based testing; diff round-trip with an independent strict applier; snapshot differencing",
     "DESIGN.md §3 C03",
 )
 check(
     "C15", "exploration",
-    "Validity-predicate search over generated run shapes (0-4 codemods of every kind incl. unknown ids; 0-4 generated programs; undecodable/syntax-error/empty/NUL files; empty or non-Python-only directories; non-ASCII and astral file names and content; manifests; --dry-run; four directory spellings): every report of a run that exits 0 is validated against a hand-written JSON Schema and structural invariants that relate it to the registry (id, summary, description, references), the executed sequence (log), and the tree snapshots (changeset paths exist, diffs non-empty, change line numbers inside the file, failed/changed disjoint, SAST tool/rule/finding ids within the codemod's declared rules).",
+    "Validity-predicate search over generated run shapes (0-4 codemods of every kind incl. unknown ids and same-named codemods of several origins in one run; 0-4 generated programs; undecodable/syntax-error/empty/NUL files; empty or non-Python-only directories; non-ASCII and astral file names and content; manifests; --dry-run; four directory spellings): every report of a run that exits 0 is validated against a hand-written JSON Schema and structural invariants that relate it to the registry (id, summary, description, references), the executed sequence (log), and the tree snapshots (changeset paths exist, diffs non-empty, change line numbers inside the file, failed/changed disjoint, SAST tool/rule/finding ids within the codemod's declared rules).",
     "Trusted: the hand-written schema (the official CodeTF schema is only available from the network); line numbers accepted in original or new numbering; runs that exit non-zero are outside the statement's premise and are counted, not judged.",
     "Hypothesis property-based testing; JSON Schema + structural invariants as validity predicate",
     "DESIGN.md §3 C15",
@@ -78,35 +78,35 @@ check(
 )
 check(
     "C09", "exploration",
-    "Differential search over generated histories: projects of multi-trigger files (seeds of several codemods concatenated in separate scopes; hand-written same-line co-triggers) plus manifests, under generated sequences of 2-5 codemods (rule-detected ones and dependency adders included; the whole default set in the thorough tier). Copy A runs the sequence in one invocation, copy B runs one invocation per codemod in order on the evolving tree; final trees must be byte-identical and each per-codemod result (changesets with diffs and changes, failed files, unfixed findings, description with dependency notice) equal. The batch tree is also judged by C01's validity oracle.",
+    "Differential search over generated histories: projects of multi-trigger files (seeds of several codemods concatenated in separate scopes; hand-written same-line co-triggers) plus manifests, under generated sequences of 2-5 codemods (rule-detected ones and dependency adders included; the whole default set in the thorough tier); half of the projects also hold a file no codemod can parse and copies of a trigger file under vendor/ and node_modules/. Copy A runs the sequence in one invocation, copy B runs one invocation per codemod in order on the evolving tree; final trees must be byte-identical and each per-codemod result (changesets with diffs and changes, failed files, unfixed findings, description with dependency notice) equal. The batch tree is also judged by C01's validity oracle.",
     "Trusted: the sequential configuration of the same code as the reference; order of change entries inside a changeset compared as a multiset; failed files compared relative to the project.",
     "Hypothesis property-based testing; differential batch vs. sequential histories with tree snapshots",
     "DESIGN.md §3 C09",
 )
 check(
     "C10", "fault_enumeration",
-    "Fault injection with a differential oracle: generated projects (3-6 trigger files, 1-3 codemods, detector-less / real-semgrep / SAST pipelines) x fault kind (invalid UTF-8, NUL, syntax error, empty file, file vanishing between listing and reading, parser raising for the victim, transformer raising at the j-th visited node) x victim position x worker count. The run with the fault is compared with the fault-free run of the same project: every other file must end with the same bytes and changesets; the victim is unchanged, has no changeset from a codemod that failed on it, is listed as failed by the codemods that selected it, its SAST findings are reported unfixed; exit 0; report schema-valid. The thorough tier enumerates every visited-node index j of the victim exhaustively for sampled plans.",
+    "Fault injection with a differential oracle: generated projects (3-6 trigger files, 1-3 codemods, detector-less / real-semgrep / SAST pipelines) x fault kind (invalid UTF-8, NUL, syntax error, empty file, file vanishing between listing and reading, parser raising for the victim, transformer raising at the j-th visited node) x victim position x worker count; invalid bytes are appended as a comment or placed inside string literals at the start of every statement (left of the detector's match), SAST victims carry 1-2 findings with ids of their own, and a deterministic grid pipeline kind x fault kind is covered in every run besides the random plans. The run with the fault is compared with the fault-free run of the same project: every other file must end with the same bytes and changesets; the victim is unchanged, has no changeset from a codemod that failed on it, is listed as failed by the codemods that selected it, every one of its SAST findings is reported unfixed (by id for DefectDojo); exit 0; report schema-valid. The thorough tier enumerates every visited-node index j of the victim exhaustively for sampled plans.",
     "Trusted: seams at libcst.parse_module / MatcherDecoratableTransformer.on_visit / pathlib.Path.read_bytes applied in the forked child (no repository hooks); the fault-free run as reference; faults are exceptions and bad bytes, not process kills.",
     "fault injection at library seams + differential vs. fault-free run (Hypothesis-drawn plans; exhaustive j enumeration in thorough)",
     "DESIGN.md §3 C10",
 )
 check(
     "C11", "exploration",
-    "Metamorphic generated search: the same generated project and codemod selection is run (a) with w=1 and with w in {2,3,8} under Hypothesis-drawn per-file delay schedules injected at the libcst.parse_module seam and a permuted file creation order: normalised report and tree must be identical (completion order is observed to differ from input order); (b) in fresh interpreters under different PYTHONHASHSEED values, including cross-collection wildcard selections and the whole default set whose order comes from the registry; (c) with and without sibling files: bytes and changeset of a file must not depend on its siblings; (d) under an in-flight monitor at the same seam: with every parse sleeping 30 ms and 8-14 files the number of files simultaneously in flight must not exceed --max-workers.",
+    "Metamorphic generated search: the same generated project and codemod selection is run (a) with w=1 and with w in {2,3,8} under Hypothesis-drawn per-file delay schedules injected at the libcst.parse_module seam and a permuted file creation order: normalised report and tree must be identical (completion order is observed to differ from input order); (b) in fresh interpreters under different PYTHONHASHSEED values, including cross-collection wildcard selections, paths that differ only in letter case, and the whole default set whose order comes from the registry; (c) with and without sibling files: bytes and changeset of a file must not depend on its siblings; (d) under an in-flight monitor at the same seam: with every parse sleeping 30 ms and 8-14 files the number of files simultaneously in flight must not exceed --max-workers.",
     "Trusted: the harness owns per-file delays, not the GIL (interleavings inside one file's transformation are not enumerated); normalisation removes only elapsed, commandLine and the absolute directory.",
     "Hypothesis property-based metamorphic testing with schedule injection and an in-flight monitor at a library seam",
     "DESIGN.md §3 C11",
 )
 check(
     "C13", "exploration",
-    "Differential generated search against the unfiltered run of the same codemod: for every find-and-fix codemod a file with 2-5 sites is built from per-function copies of harvested triggers; which lines are single-line sites is measured (1->1 replaced logical lines that the unfiltered run reports a change entry for); Hypothesis draws proper subsets as --path-exclude / --path-include path:line entries spelled relative, with '*' / '**/' globs or absolute, alone or with a file-level pattern. Forbidden lines must be byte-identical, permitted sites rewritten exactly as in the unfiltered run, no change entry may name a forbidden line, and every rewritten single-line site must have a change entry with its line.",
+    "Differential generated search against the unfiltered run of the same codemod: for every find-and-fix codemod a file with 2-5 sites is built from per-function copies of harvested triggers; which lines are single-line sites is measured (1->1 replaced logical lines that the unfiltered run reports a change entry for); Hypothesis draws proper subsets as --path-exclude / --path-include path:line entries spelled relative, with '*' / '**/' globs or absolute (one spelling for the whole list or a different one per entry), alone or with a file-level pattern, with and without a same-named twin file elsewhere in the tree. Forbidden lines must be byte-identical, permitted sites rewritten exactly as in the unfiltered run, no change entry may name a forbidden line, and every rewritten single-line site must have a change entry with its line.",
     "Trusted: the unfiltered run as reference for what a site is and how it is rewritten; change line numbers accepted in original or new numbering; multi-line constructs exempt (logical lines computed with tokenize).",
     "Hypothesis property-based testing; differential filtered vs. unfiltered run with measured site lines",
     "DESIGN.md §3 C13",
 )
 check(
     "C06", "exploration",
-    "Metamorphic generated search grounded in the repository's own SAST fixtures (input + tool document harvested from each of the 37 SAST codemods' unit tests; locations are shifted and replicated, never invented): 1-4 copies of a fixture in def/method/nested/if/... contexts with tab/CRLF/prepended-line layouts; a calibration run reports every site; then subsets of the findings (all 2^n subsets for n <= 3 in the thorough tier) and decoys (foreign rule at the same location, same rule for another file, RESOLVED status, foreign-tool SARIF run, empty document) are reported. Sites in the subset must end up exactly as in the calibration run, all other text must be unchanged, decoys and the empty document produce no change and no changeset, every rewritten site has a change entry carrying a finding of its rule (and id for DefectDojo), no entry carries an unreported rule or id.",
+    "Metamorphic generated search grounded in the repository's own SAST fixtures (input + tool document harvested from each of the 37 SAST codemods' unit tests; locations are shifted and replicated, never invented): 1-4 copies of a fixture in def/method/nested/if/... contexts with tab/CRLF/prepended-line layouts; a calibration run reports every site; then subsets of the findings (all 2^n subsets for n <= 3 in the thorough tier) and decoys (foreign rule at the same location, same rule for another file, RESOLVED/REVIEWED/FIXED/CLOSED copies of the findings of an *unreported* site in the issues or hotspots list, foreign-tool SARIF run, empty document) are reported, in one result file or spread over two files of the same tool. Sites in the subset must end up exactly as in the calibration run, all other text must be unchanged, decoys and the empty document produce no change and no changeset, every rewritten site has a change entry carrying a finding of its rule (and id for DefectDojo), no entry carries an unreported rule or id.",
     "Trusted: the calibration run as the definition of 'equally vulnerable site' (copies not acted on there are dropped and counted); fixtures as ground truth for each tool's location convention; finding identity by rule (by id for DefectDojo).",
     "Hypothesis property-based metamorphic testing over harvested tool fixtures (subset/decoy relations vs. full-report run)",
     "DESIGN.md §3 C06",
